@@ -114,7 +114,10 @@ SCOPESETS = [["read", "write"], ["read"], ["write"], ["read", "write", "extra"],
              ["write", "read", "write", "write"], ["thread"], ["readonly"], ["rewrite"], ["read", "overwrite:config"], ["writer", "bread"], ["READ", "WRITE"]]
 ADMIN_SCOPES = [["relay:admin"], ["relay:admin", "read"], ["relay:admin "], ["Relay:Admin"], ["relay:admins"], ["admin"],
                 ["relay:stats"], ["read", "write"], ["relay:stats", "relay:admin"], ["relay:admin:x"], ["relay:admin:"], ["relay:stats:x"], ["relay:stats:"],
-                ["relay"], ["relay:"], [":admin"], ["relay::admin"], ["xrelay:admin"], ["relay:admin,relay:stats"], ["relay:*"], ["*"], [""]]
+                ["relay"], ["relay:"], [":admin"], ["relay::admin"], ["xrelay:admin"], ["relay:admin,relay:stats"], ["relay:*"], ["*"], [""],
+                # repeated entries (a scope LIST, not a set: counting or summing them must not turn ordinary scopes into privileged ones)
+                ["relay:stats", "relay:stats"], ["relay:stats"] * 3, ["write"] * 16, ["read"] * 16, ["read"] * 32, ["host"] * 4 + ["client"] * 2,
+                ["read", "write"] * 8, ["client"] * 4, ["host"] * 8, ["read"] * 2 + ["write"] * 15, ["relay:stats", "read"] * 2]
 WS_PATHS = [("/session/{t}", True), ("/session/{t}/", True), ("/shell/{t}", False), ("/{t}", False), ("/session/{t}!x", True),
             ("/sessionx/{t}", False), ("/session/{t}x", True), ("/session/{t}/more", True), ("/Session/{t}", False)]
 
